@@ -18,6 +18,9 @@ type Scenario struct {
 	// ThoroughOnly scenarios are left out of the quick tier; they come last in
 	// the list so that job indexes of the quick tier are a prefix.
 	ThoroughOnly bool
+	// QuickBound, if not zero, is the preemption bound of this scenario in the
+	// quick tier (the thorough tier uses the common bound).
+	QuickBound int
 }
 
 var c14ListA = ListSpec{ID: 1, Text: "! list A\n" +
@@ -79,7 +82,6 @@ func C14Scenarios() []Scenario {
 	cos := Query{Kind: "cosmetic", Host: "example.org", Option: rules.CosmeticOptionAll}
 	return []Scenario{
 		{Name: "S1-same-rule-twice-in-url-2t", Lists: both, Threads: [][]Query{{twice}, {twice}}, Warm: []Query{twice}},
-		{Name: "S1-same-rule-twice-in-url-3t", Lists: both, Threads: [][]Query{{twice}, {twice}, {twice}}, Warm: []Query{twice}},
 		{Name: "S2-different-uncached-rules-2t", Lists: both, Threads: [][]Query{{q1}, {q2}}, Warm: []Query{q1, q2}},
 		{Name: "S2-different-uncached-rules-3t", Lists: both, Threads: [][]Query{{q1}, {q2}, {q3}}, Warm: []Query{q1}},
 		{Name: "S3-lazy-regex-compile-2t", Lists: both, Threads: [][]Query{{rx}, {rx}}, Warm: []Query{q1}},
@@ -92,7 +94,8 @@ func C14Scenarios() []Scenario {
 		{Name: "S7-engine-referrer-2t", Lists: both, Threads: [][]Query{{eng}, {eng2}}, Warm: []Query{eng}},
 		{Name: "S7-engine-same-referrer-2t", Lists: both, Threads: [][]Query{{eng}, {eng}}, Warm: []Query{eng}},
 		{Name: "S4-dns-pool-4t", Lists: both, Threads: [][]Query{{d2}, {d3}, {d5}, {d7}}, Warm: []Query{d1}, MaxBound: 1},
-		{Name: "S6-mixed-3t", Lists: both, Threads: [][]Query{{q3, d7}, {d1, twice}, {rx, q1}}, Warm: []Query{q1, d1}},
+		{Name: "S6-mixed-3t", Lists: both, Threads: [][]Query{{q3, d7}, {d1, twice}, {rx, q1}}, Warm: []Query{q1, d1}, QuickBound: 1},
+		{Name: "S1-same-rule-twice-in-url-3t", Lists: both, Threads: [][]Query{{twice}, {twice}, {twice}}, Warm: []Query{twice}, ThoroughOnly: true},
 		{Name: "S3-lazy-regex-compile-3t", Lists: both, Threads: [][]Query{{rx}, {rx}, {q1}}, Warm: []Query{q1}, ThoroughOnly: true},
 		{Name: "S1-same-rule-twice-in-url-4t", Lists: both, Threads: [][]Query{{twice}, {twice}, {twice}, {twice}}, Warm: []Query{twice}, MaxBound: 1, ThoroughOnly: true},
 	}
